@@ -60,6 +60,7 @@ type Outcome struct {
 	Oplog      []*Ev    // final oplog (before the teardown probe)
 	Final      []string // final contents of db.c (sorted by _id)
 	ClosedBy   bool     // the scenario itself closed the engine
+	ProbeCls   string   // result class of the teardown probe write ("" = not run)
 	N          int      // number of client actors
 	WallMS     float64
 	W          *World
@@ -123,6 +124,7 @@ func Run(sc Scenario, ch Chooser) *Outcome {
 			}
 		}
 	}
+	traceMonitors(out)
 	if c.Deadlocked || c.Stalled {
 		wit := "wedged:" + sc.Kind
 		if sc.Shared {
@@ -151,8 +153,82 @@ func Run(sc Scenario, ch Chooser) *Outcome {
 	w.mu.Unlock()
 	monitorsC16(out, c, w, base)
 	out.Viols = append(out.Viols, CheckHistory(out)...)
+	out.Viols = append(out.Viols, CheckPersistence(out)...)
 	out.WallMS = float64(time.Since(t0).Microseconds()) / 1000
 	return out
+}
+
+// traceMonitors are the C16 checks that only need the trace (they also run when the scenario ends
+// in a deadlock).
+func traceMonitors(out *Outcome) {
+	// a client that HOLDS a write transaction (StartTransaction / locked Begin returned ok, its
+	// Commit/Abort/End not yet called) excludes every other writer: nobody else acquires the token
+	// in that interval (sessions shared between actors are left out: there the finishing call may
+	// come from another actor)
+	if !out.Sc.Shared {
+		cur := map[int]CallInfo{}
+		holder := 0
+		for _, r := range out.Trace {
+			switch r.Kind {
+			case "call":
+				ci, _ := r.Call.(CallInfo)
+				if !ci.Sub {
+					cur[r.Actor] = ci
+				}
+				if r.Actor == holder {
+					switch ci.Op {
+					case "scommit", "sabort", "send", "ecommit", "eabort", "close":
+						holder = 0
+					}
+				}
+				if ci.Call == "close" {
+					holder = 0
+				}
+			case "ret":
+				ci := cur[r.Actor]
+				if r.Final && r.Res != nil && r.Res.Cls == "ok" && (ci.Op == "sstart" || (ci.Op == "ebegin" && ci.Lock)) {
+					holder = r.Actor
+				}
+			case "event":
+				if holder != 0 && r.Actor != holder && r.Point == "sem.acquired" && len(r.Args) == 1 && r.Args[0] == true {
+					out.viol("C16", "two-writers", "a second writer acquired the write token while a client held an open write transaction",
+						fmt.Sprintf("holder actor %d, intruder actor %d at trace #%d", holder, r.Actor, r.Seq))
+					holder = 0
+				}
+			}
+		}
+	}
+	// after Engine.Close has returned, no writer may still be queued for the write token — whatever
+	// kind of context it waits with (Background, WithCancel / WithTimeout that never fire)
+	closedAt := -1
+	closer := map[int]bool{}
+	for _, r := range out.Trace {
+		switch r.Kind {
+		case "call":
+			if ci, ok := r.Call.(CallInfo); ok && ci.Call == "close" {
+				closer[r.Actor] = true
+			}
+		case "ret":
+			if closer[r.Actor] && r.Final && closedAt < 0 {
+				closedAt = r.Seq
+			}
+		case "blocked", "deadlock":
+			if closedAt >= 0 && r.Site == "token" {
+				ctx := "WithCancel"
+				if r.Actor-1 < len(out.Sc.Actors) && r.Op < len(out.Sc.Actors[r.Actor-1]) {
+					switch out.Sc.Actors[r.Actor-1][r.Op].Ctx {
+					case "bg":
+						ctx = "Background"
+					case "timeout":
+						ctx = "WithTimeout"
+					}
+				}
+				out.viol("C16", "close-not-prompt:queued-writer", "a writer is still queued for the write token after Engine.Close returned",
+					fmt.Sprintf("actor %d (context %s) trace #%d, Close returned at #%d", r.Actor, ctx, r.Seq, closedAt))
+				return
+			}
+		}
+	}
 }
 
 // monitorsC16 runs the implementation-side checks of "the engine never wedges".
@@ -190,6 +266,13 @@ func monitorsC16(out *Outcome, c *Controller, w *World, base int) {
 			case "noActive", "mismatch", "existing", "nested", "missingTxn":
 				out.viol("C16", "spurious-txn-error", "a plain call failed with a transaction bookkeeping error", fmt.Sprintf("actor %d %s: %s", h.Actor, h.Kind, h.Res.Cls))
 			}
+		}
+	}
+	// ... and the holder of a write transaction can commit it: Commit of the actor's OWN live handle
+	// (ecommit) or of an unshared session's transaction never reports that the transaction is gone
+	for _, h := range out.History {
+		if (h.Kind == "ecommit" || (h.Kind == "scommit" && !sc.Shared)) && (h.Res.Cls == "noActive" || h.Res.Cls == "mismatch") {
+			out.viol("C16", "spurious-txn-error", "the holder of a write transaction could not commit it: someone else ended it", fmt.Sprintf("actor %d %s: %s", h.Actor, h.Kind, h.Res.Cls))
 		}
 	}
 	// (2) at most one write transaction at a time: e.txn never changes from one transaction to
@@ -271,9 +354,16 @@ func monitorsC16(out *Outcome, c *Controller, w *World, base int) {
 		cls := "hang"
 		select {
 		case cls = <-res:
-		case <-time.After(1500 * time.Millisecond): // the call ignores its context: it hangs inside the engine
+		case <-time.After(1500 * time.Millisecond):
+			// no answer although the context expired: either the call ignores its context and hangs inside
+			// the engine, or this process was starved (loaded machine) — give it a generous second chance
+			select {
+			case cls = <-res:
+			case <-time.After(10 * time.Second):
+			}
 		}
 		cancel()
+		out.ProbeCls = cls
 		if cls != "ok" {
 			wit := "wedged:" + sc.Kind
 			if sc.Shared {
@@ -285,15 +375,9 @@ func monitorsC16(out *Outcome, c *Controller, w *World, base int) {
 		}
 	}
 	// (5) Close is prompt, every call then reports ErrEngineClosed, goroutines return to the baseline
-	done := make(chan struct{})
-	t0 := time.Now()
-	go func() { defer close(done); defer func() { _ = recover() }(); w.Engine.Close() }()
-	select {
-	case <-done:
-	case <-time.After(200 * time.Millisecond):
+	if !promptly(func() { defer func() { _ = recover() }(); w.Engine.Close() }) {
 		out.viol("C16", "close-not-prompt", "Engine.Close did not return within 200 ms", "")
 	}
-	_ = t0
 	probes := map[string]func(ctx context.Context) error{
 		"insert": func(ctx context.Context) error {
 			_, e := w.Client.Database(DB).Collection(Coll).InsertOne(ctx, bson.D{{Key: "x", Value: 1}})
@@ -314,7 +398,8 @@ func monitorsC16(out *Outcome, c *Controller, w *World, base int) {
 	}
 	for name, f := range probes {
 		res := make(chan string, 1)
-		go func() {
+		f := f
+		ok := promptly(func() {
 			defer func() {
 				if p := recover(); p != nil {
 					res <- "panic"
@@ -323,14 +408,11 @@ func monitorsC16(out *Outcome, c *Controller, w *World, base int) {
 			ctx, cancel := context.WithTimeout(context.Background(), time.Second)
 			defer cancel()
 			res <- Classify(f(ctx))
-		}()
-		select {
-		case cls := <-res:
-			if cls != "closed" {
-				out.viol("C16", "close-not-prompt", "call after Close did not report ErrEngineClosed", name+": "+cls)
-			}
-		case <-time.After(200 * time.Millisecond):
+		})
+		if !ok {
 			out.viol("C16", "close-not-prompt", "call after Close did not return within 200 ms", name)
+		} else if cls := <-res; cls != "closed" {
+			out.viol("C16", "close-not-prompt", "call after Close did not report ErrEngineClosed", name+": "+cls)
 		}
 	}
 	// the process-wide count returns to the baseline; when other shards of the harness are busy the
@@ -387,7 +469,14 @@ func ReadOplog(e *lungo.Engine) []*Ev {
 
 // Contents returns the canonical documents of a namespace sorted by _id order of the engine.
 func Contents(e *lungo.Engine, h lungo.Handle) []string {
-	cat := e.Catalog()
+	return contentsOf(e.Catalog(), h)
+}
+
+// contentsOf returns the canonical, sorted documents of one namespace of a catalog.
+func contentsOf(cat *lungo.Catalog, h lungo.Handle) []string {
+	if cat == nil {
+		return []string{}
+	}
 	ns := cat.Namespaces[h]
 	out := []string{}
 	if ns == nil {
@@ -419,4 +508,47 @@ func markLungoBase() {
 			lungoBase[id] = true
 		}
 	}
+}
+
+// promptly runs f on its own goroutine and reports whether it returns within 200 ms.  On a loaded
+// machine a goroutine can be starved for longer than that, so a late goroutine is only counted as
+// "not prompt" if it is seen WAITING (parked in a lock, channel operation, select or sleep); while it
+// is runnable or running it gets up to 10 s.
+func promptly(f func()) bool {
+	done := make(chan struct{})
+	gidc := make(chan int64, 1)
+	go func() {
+		defer close(done)
+		gidc <- curGID()
+		f()
+	}()
+	gid := <-gidc
+	select {
+	case <-done:
+		return true
+	case <-time.After(200 * time.Millisecond):
+	}
+	for i := 0; i < 200; i++ {
+		select {
+		case <-done:
+			return true
+		default:
+		}
+		switch st := allGoroutines()[gid]; st.Wait {
+		case "", "running", "runnable", "syscall", "IO wait", "GC assist wait", "preempted":
+		default:
+			// waiting: check once more after a moment (a wake-up may be in flight)
+			time.Sleep(20 * time.Millisecond)
+			select {
+			case <-done:
+				return true
+			default:
+			}
+			if st2 := allGoroutines()[gid]; st2.Wait == st.Wait {
+				return false
+			}
+		}
+		time.Sleep(50 * time.Millisecond)
+	}
+	return false
 }
